@@ -244,13 +244,9 @@ thread_local! {
 /// Deterministic two-thread schedule through the guarded hook `graph.adjacency_rmw` (between the
 /// read of an adjacency list and its write-back): thread 1 runs `op1` and is held at its FIRST
 /// such point until thread 2 has finished `op2` (or 400 ms have passed: with the per-key lock
-/// thread 2 cannot get in and simply waits for thread 1). Returns whether thread 2 finished while
-/// thread 1 was held.
-fn scheduled_case(setup: &[Op], op1: Op, op2: Op, tag: &str, w: &mut CaseWriter) -> bool {
-    let e = Arc::new(GraphEngine::new());
-    for (i, o) in setup.iter().enumerate() {
-        let _ = apply(&e, o, i as u64);
-    }
+/// thread 2 cannot get into the SAME list and simply waits for thread 1; other lists are free).
+/// Returns both (op, result) pairs and whether thread 2 finished while thread 1 was held.
+fn hooked_pair(e: &Arc<GraphEngine>, op1: &Op, op2: &Op) -> ((Op, Res), (Op, Res), bool) {
     // (thread 1 is at the hook, thread 2 is done)
     let st = Arc::new((Mutex::new((false, false)), Condvar::new()));
     let st_hook = st.clone();
@@ -296,15 +292,117 @@ fn scheduled_case(setup: &[Op], op1: Op, op2: Op, tag: &str, w: &mut CaseWriter)
         (Op::CreateEdge(f, t, d), Res::Id(id)) => Op::CreateEdgeId(*id, *f, *t, *d),
         _ => o.clone(),
     };
+    let ov = *overlapped.lock().unwrap();
+    ((fix(op1, &r1), r1), (fix(op2, &r2), r2), ov)
+}
+
+fn scheduled_case(setup: &[Op], op1: Op, op2: Op, tag: &str, w: &mut CaseWriter) -> bool {
+    let e = Arc::new(GraphEngine::new());
+    for (i, o) in setup.iter().enumerate() {
+        let _ = apply(&e, o, i as u64);
+    }
+    let ((o1, r1), (o2, r2), ov) = hooked_pair(&e, &op1, &op2);
     let ob = observe(&e);
     let term = format!(
         "(0, {}, [[({}, {})]; [({}, {})]], {})",
         list(setup.iter().map(|o| o.coq())),
-        fix(&op1, &r1).coq(), r1.coq(), fix(&op2, &r2).coq(), r2.coq(), ob
+        o1.coq(), r1.coq(), o2.coq(), r2.coq(), ob
     );
-    let ov = *overlapped.lock().unwrap();
     w.push(&term, &format!("{tag} schedule: T1 {:?} held between list read and write-back, T2 {:?}; T2 finished while T1 was held: {ov}", op1, op2), true);
     ov
+}
+
+/// sequential tail after a concurrent phase: every op observed; written as a `mixed` case
+fn mixed_case(e: &GraphEngine, setup: &[Op], threads: &[Vec<(Op, Res)>], tail: &[Op], tag: &str, w: &mut CaseWriter) {
+    let mut items = vec![];
+    for (i, o) in tail.iter().enumerate() {
+        let res = guarded(std::panic::AssertUnwindSafe(|| apply(e, o, 5000 + i as u64))).unwrap_or(Res::Err);
+        items.push(format!("({}, {})", res.coq(), observe(e)));
+    }
+    let term = format!(
+        "({}, {}, {}, {})",
+        list(setup.iter().map(|o| o.coq())),
+        list(threads.iter().map(|t| list(t.iter().map(|(o, r)| format!("({}, {})", o.coq(), r.coq()))))),
+        list(tail.iter().map(|o| o.coq())),
+        list(items)
+    );
+    w.push(&term, &format!("{tag} setup={:?} threads={:?} tail={:?}", setup, threads, tail), true);
+}
+
+/// Adjacency lists in NON-ascending id order, built deterministically through the hook: thread 1
+/// draws the smaller edge id and is held at its first list (node 1's), thread 2 draws the larger id
+/// and appends it to node 2's lists first. Then every edge / node is deleted sequentially.
+fn inversion_case(r: &mut Rng, rounds: u64, tag: &str, w: &mut CaseWriter, dist: &mut Dist) {
+    let e = Arc::new(GraphEngine::new());
+    let mut setup = vec![Op::CreateNode, Op::CreateNode, Op::CreateNode, Op::CreateNode];
+    for _ in 0..r.range(0, 3) {
+        setup.push(Op::CreateEdge(*r.pick(&[1u64, 3, 4]), 2, r.chance(1, 2)));
+    }
+    let mut nedges = 0u64;
+    for (i, o) in setup.iter().enumerate() {
+        if let Res::Id(x) = apply(&e, o, i as u64) {
+            if matches!(o, Op::CreateEdge(..)) {
+                nedges = nedges.max(x);
+            }
+        }
+    }
+    let mut threads: Vec<Vec<(Op, Res)>> = vec![vec![], vec![]];
+    let mut inverted = 0;
+    for _ in 0..rounds {
+        let o1 = Op::CreateEdge(1, 2, r.chance(1, 2));
+        let o2 = Op::CreateEdge(*r.pick(&[3u64, 4]), 2, r.chance(1, 2));
+        let (a, bb, ov) = hooked_pair(&e, &o1, &o2);
+        if let (Res::Id(x), Res::Id(y)) = (&a.1, &bb.1) {
+            nedges = nedges.max(*x).max(*y);
+            if ov && x < y {
+                inverted += 1;
+            }
+        }
+        threads[0].push(a);
+        threads[1].push(bb);
+    }
+    dist.add("mixed.hook_rounds_with_larger_id_appended_first", inverted);
+    let mut ids: Vec<u64> = (1..=nedges).collect();
+    r.shuffle(&mut ids);
+    let mut tail: Vec<Op> = ids.iter().map(|x| Op::DeleteEdge(*x)).collect();
+    if r.chance(1, 2) {
+        let pos = r.below(tail.len() as u64 + 1) as usize;
+        tail.insert(pos, Op::DeleteNode(2));
+    }
+    mixed_case(&e, &setup, &threads, &tail, tag, w);
+}
+
+/// stress variant: several threads create edges on one hub, then sequential deletions
+fn stress_then_delete_case(r: &mut Rng, t: u64, tag: &str, w: &mut CaseWriter) {
+    let e = Arc::new(GraphEngine::new());
+    let spokes = r.range(2, 4);
+    let mut setup = vec![Op::CreateNode];
+    for _ in 0..spokes {
+        setup.push(Op::CreateNode);
+    }
+    for (i, o) in setup.iter().enumerate() {
+        let _ = apply(&e, o, i as u64);
+    }
+    let k = r.range(6, 12);
+    let threads: Vec<Vec<Op>> = (0..t)
+        .map(|_| {
+            (0..k)
+                .map(|_| {
+                    let s = r.range(2, spokes + 1);
+                    let d = r.chance(1, 2);
+                    if r.chance(1, 2) { Op::CreateEdge(1, s, d) } else { Op::CreateEdge(s, 1, d) }
+                })
+                .collect()
+        })
+        .collect();
+    let results = run_threads(&e, threads);
+    let total = t * k;
+    let mut ids: Vec<u64> = (1..=total).collect();
+    r.shuffle(&mut ids);
+    ids.truncate(r.range(8, 16).min(total) as usize);
+    let mut tail: Vec<Op> = ids.iter().map(|x| Op::DeleteEdge(*x)).collect();
+    tail.push(Op::DeleteNode(r.range(1, spokes + 1)));
+    mixed_case(&e, &setup, &results, &tail, tag, w);
 }
 
 fn main() {
@@ -507,13 +605,27 @@ fn main() {
         }
     }
 
+    // ---------------------------------------------------------------- concurrent creations, then sequential deletions
+    let mut mixed = CaseWriter::new(&args.out, "mixed");
+    for i in 0..args.budget(3, 20) {
+        let rounds = rng.range(2, 4);
+        inversion_case(&mut rng, rounds, &format!("hook-built unsorted lists #{i}"), &mut mixed, &mut dist);
+        dist.hit("mixed.hook_inversion_then_deletes");
+    }
+    for t in [2u64, 4, 8] {
+        for rep in 0..args.budget(2, 20) {
+            stress_then_delete_case(&mut rng, t, &format!("hub creations t={t} rep={rep} then sequential deletes"), &mut mixed);
+            dist.hit(&format!("mixed.stress_then_deletes.threads_{t}"));
+        }
+    }
+
     write_meta(
         &args.out,
         json!({
             "property": "C05", "seed": args.seed, "tier": args.tier,
-            "kinds": [seq.summary(), conc.summary()],
+            "kinds": [seq.summary(), conc.summary(), mixed.summary()],
             "distribution": dist.json(),
-            "nontrivial_rule": "seq: a delete_node of a node with incident edges succeeded; conc: at least two threads (or the rayon branch of delete_node with > 100 incident edges)",
+            "nontrivial_rule": "seq: a delete_node of a node with incident edges succeeded; conc: at least two threads (or the rayon branch of delete_node with > 100 incident edges); mixed: always (a concurrent creation phase followed by observed sequential deletions)",
         }),
     );
 }
